@@ -75,7 +75,7 @@ var probeTopics = [][]string{{"a"}, {"b"}, {"c"}, {"a", "b"}}
 var putTopics = [][]string{{"a"}, {"b"}, {"a", "b"}}
 
 // FiniteOps is the operation alphabet of C08.
-var FiniteOps = []string{"Put{a}", "Put{b}", "Put{a,b}", "Put(no topics)", "Put(ID wrong for the mode)", "Replay(oldest buffered ID, {a,b})", "Replay(oldest buffered ID, {a}, first Send fails)"}
+var FiniteOps = []string{"Put{a}", "Put{b}", "Put{a,b}", "Put(no topics)", "Put(ID wrong for the mode)", "Replay(oldest buffered ID, {a,b})", "Replay(oldest buffered ID, {a}, first Send fails)", "Put{a} with the empty (but set) ID"}
 
 type FiniteCfg struct {
 	N    int
@@ -119,6 +119,7 @@ func VisitFinite(c FiniteCfg, hist []uint8, which string, probes *int64) (uint64
 	var model []entry // last N accepted
 	var issued []string
 	next := 0
+	usedEmpty := false
 	desc := func() string {
 		var ops []string
 		for _, o := range hist {
@@ -132,7 +133,7 @@ func VisitFinite(c FiniteCfg, hist []uint8, which string, probes *int64) (uint64
 		if last {
 			before = deep.Hash(r)
 		}
-		if op >= 5 {
+		if op == 5 || op == 6 {
 			// a Replay as a step of the history (not only as a probe): it must not change what later steps see
 			w := &probeWriter{}
 			sub := sse.Subscription{Client: w, Topics: []string{"a", "b"}}
@@ -149,7 +150,24 @@ func VisitFinite(c FiniteCfg, hist []uint8, which string, probes *int64) (uint64
 		valid := op <= 2
 		var topics []string
 		withID := !c.Auto
+		emptyID := false
+		if op == 7 {
+			// ID("") is a legal, set ID: valid with manual IDs (once per history, so lookups stay unambiguous),
+			// "already has an ID" with automatic IDs
+			topics = []string{"a"}
+			emptyID = true
+			if c.Auto {
+				valid = false
+			} else {
+				if usedEmpty {
+					return 0, false, ""
+				}
+				usedEmpty = true
+				valid = true
+			}
+		}
 		switch {
+		case op == 7:
 		case valid:
 			topics = putTopics[op]
 		case op == 3:
@@ -159,10 +177,16 @@ func VisitFinite(c FiniteCfg, hist []uint8, which string, probes *int64) (uint64
 			withID = c.Auto // wrong for the mode
 		}
 		in := mkMsg(k, withID)
+		if emptyID {
+			in.ID = sse.ID("")
+		}
 		inEnc := in.String()
 		out, perr := r.Put(in, topics)
 		if valid {
 			wantID := "e" + strconv.Itoa(k)
+			if emptyID {
+				wantID = ""
+			}
 			if c.Auto {
 				wantID = strconv.Itoa(next)
 				next++
